@@ -3,7 +3,8 @@
 Explicit-state BFS (replay based) over command / traffic / time histories on a real SoftwareSwitch
 behind the byte-level connection.  After EVERY operation the table is read back over the wire
 (flow-stats request decoded by mc/refs/ofwire.py) and compared, together with the messages the
-switch emitted, with the reference state machine in mc/refs/reftable.py.
+switch emitted, with the reference state machine in mc/refs/reftable.py.  The search runs against a switch with the
+default (practically unbounded) flow table and against switches whose table holds 0 - 3 entries (CAP_ROOTS).
 """
 import struct
 from mc.engine import bfs
@@ -98,11 +99,14 @@ OPS = all_ops()
 
 
 class World (object):
-  def __init__ (self):
+  def __init__ (self, capacity=None):
+    """capacity: size of the switch's flow table (SoftwareSwitch max_entries); None = the default, practically unbounded"""
     from mc.env import SwitchStack, VClock
     self.clock = VClock(1000.0)
-    self.st = SwitchStack(dpid=1, ports=4, clock=self.clock, max_buffers=0)
-    self.ref = RefTable()
+    self.capacity = capacity
+    kw = {} if capacity is None else dict(max_entries=capacity)
+    self.st = SwitchStack(dpid=1, ports=4, clock=self.clock, max_buffers=0, **kw)
+    self.ref = RefTable(capacity=capacity)
     self.xid = 10
     self.bad = []
 
@@ -145,6 +149,7 @@ class World (object):
     k = op[0]
     exp = []
     rxinfo = None
+    atcap = None
     if k == "tick":
       self.clock.advance(op[1]); return ("tick",)
     if k == "ticksweep":
@@ -161,6 +166,13 @@ class World (object):
       rxinfo = (frame, pkt, cands)
     else:
       x = self.nxid()
+      # was the table full when the command arrived, and is there an entry the command would replace?
+      if self.capacity is not None and len(ref.entries) >= self.capacity:
+        atcap = "at-capacity:new-flow" if k in ("add", "add-emerg") else "at-capacity"
+        if k in ("add", "add-emerg"):
+          from mc.refs.reftable import identical
+          m0 = MATCHES[op[1]] if k == "add" else MATCHES["A"]; p0 = op[2] if k == "add" else 1
+          if any(identical(e.match, m0) and e.priority == p0 for e in ref.entries): atcap = "at-capacity:replacing"
       if k == "add":
         _, mid, prio, v = op
         flags, idle, hard = VARIANTS[v]
@@ -229,6 +241,9 @@ class World (object):
           if e.priority == op[2] and overlaps(e.match, new) and is_exact(e.match) == is_exact(new):
             rel.add("nested" if (subsumes(e.match, new) or subsumes(new, e.match)) else "partial-overlap")
         cl = "check-overlap-not-refused:" + "+".join(sorted(rel))
+        if not rel and atcap: cl = atcap      # nothing overlaps: the refusal that is missing is the one for the full table
+      elif k in ("add", "add-emerg", "mod", "mods", "mod-out") and atcap:
+        cl = atcap
       gk = sorted(set(m[0] for m in got)); wk = sorted(set(m[0] for m in want))
       self.fail("%s:%s:got-%s-want-%s" % (k, cl, "+".join(gk) or "none", "+".join(wk) or "none"),
                 "%r: switch emitted %r, specification says %r" % (op, norm(got, wild), norm(want, wild)))
@@ -271,7 +286,7 @@ class World (object):
       real.append((e.priority, e.cookie, e.idle_timeout, e.hard_timeout, e.flags, e.packet_count, e.byte_count,
                    round(now - e.created, 1), round(now - e.last_touched, 1), digest(e.match.pack()),
                    tuple(getattr(a, "port", None) for a in e.actions)))
-    return (model, real)
+    return (model, real, self.capacity)
 
 
 ROOTS = [
@@ -285,13 +300,30 @@ ROOTS = [
   (("add", "A", 1, "rem-hard"), ("add", "B", 2, "rem-idle"), ("tick", 1.1), ("add", "C", 1, "rem-hard"), ("add", "D", 1, "rem-idle")),
 ]
 
-def make_expand (root):
+# Switches with a small flow table (SoftwareSwitch max_entries).  The same alphabet runs against them, so every command
+# that can install an entry (ADD of a new flow, ADD replacing an identical entry, ADD+CHECK_OVERLAP, ADD+EMERG,
+# MODIFY / MODIFY_STRICT acting as ADD) meets a table that is full, one below full, and freed again by DELETE*, an
+# expiry sweep or a replacement.  Reference: a replacement needs no free slot, a new flow without one is refused with
+# ALL_TABLES_FULL and changes nothing (when CHECK_OVERLAP refuses as well, either code is accepted).
+CAP_ROOTS = [
+  # (capacity, root, depth = tier depth + this)
+  (0, (), -2),                                    # a table without room at all
+  (1, (), 0),                                     # all histories over tables of at most one entry
+  (2, (("add", "C", 2, "plain"), ("add", "A", 1, "rem-idle"), ("del", "C")), -1),     # one below full, after having been full
+  (2, (("add", "B", 1, "rem-hard"), ("add", "C", 1, "plain"), ("rx", 1)), -1),        # full, counters running
+  (3, ROOTS[1], -1),                              # full, with an exact-match entry and both kinds of timeout
+  (3, ROOTS[4][:3], -1),                          # one below full, staggered timeouts
+]
+
+def make_expand (root, capacity=None):
   def expand (h):
-    w = World()
+    w = World(capacity)
     out = None
     for op in root: w.apply(op)
     for op in h: out = w.apply(op)
-    return dict(key=w.key(), ops=OPS, bad=w.bad if h else [], out=out, replay_extra=dict(root=[list(o) for o in root]))
+    extra = dict(root=[list(o) for o in root])
+    if capacity is not None: extra["capacity"] = capacity
+    return dict(key=w.key(), ops=OPS, bad=w.bad if h else [], out=out, replay_extra=extra)
   return expand
 
 
@@ -305,23 +337,35 @@ def run (cfg):
               "SEND_FLOW_REM+idle 2, SEND_FLOW_REM+hard 3}, ADD+EMERG, MODIFY, MODIFY_STRICT, DELETE, DELETE_STRICT, DELETE with "
               "out_port filter, a frame hitting all four matches, a frame hitting only dl_type=IP, clock +1.1 / +2.1, expiry sweep; "
               "after every operation the table is read back with a flow-stats request and compared with the reference state machine, "
-              "as are the emitted error / flow-removed / packet-in messages; distinct = (last op, observation)" % (depth, len(OPS)))
-  rep.bound = dict(depth=depth, operations=len(OPS))
+              "as are the emitted error / flow-removed / packet-in messages; distinct = (last op, observation).  "
+              "The same search is repeated against switches whose flow table holds at most 0, 1, 2, 3 entries (%s), so every "
+              "installing command (new ADD, replacing ADD, CHECK_OVERLAP, EMERG, MODIFY* acting as ADD) meets a full table, a table "
+              "one below full, and one freed by DELETE*, an expiry sweep or a replacement"
+              % (depth, len(OPS), "; ".join("capacity %d: <=%d operations from %s" % (c, max(1, depth + dd), "a populated table" if r else "the empty table")
+                                           for c, r, dd in CAP_ROOTS)))
+  rep.bound = dict(depth=depth, operations=len(OPS), table_capacities=sorted(set(c for c, r, dd in CAP_ROOTS)) + ["default (0x7fffffff)"])
   rep.assumptions = ["clock steps are non-integral so no sweep lands exactly on a timeout boundary",
                      "among equal-priority overlapping entries a lookup may return either (specification leaves it open)",
                      "when idle and hard timeouts have both passed either removal reason is accepted",
-                     "state key = whole real table (ages relative to now) + reference table"]
+                     "state key = whole real table (ages relative to now) + reference table + table capacity",
+                     "an ADD whose match and priority equal an installed entry's takes that entry's place and needs no free slot; any other "
+                     "installing command on a full table is refused with ALL_TABLES_FULL and leaves the table alone; entries whose timeout has "
+                     "passed occupy their slot until the sweep removes them",
+                     "an ADD that both overlaps (CHECK_OVERLAP) and finds the table full may be refused with either code"]
   for i, root in enumerate(ROOTS):
     # start from the empty table and from two populated tables (defects rarely show from the initial state)
     bfs(make_expand(root), depth if i == 0 else depth - 1, rep, workers=cfg.workers, seed=cfg.seed, max_states=cfg.pick(400000, 2000000))
+  for cap, root, dd in CAP_ROOTS:
+    bfs(make_expand(root, cap), max(1, depth + dd), rep, workers=cfg.workers, seed=cfg.seed, max_states=cfg.pick(400000, 2000000))
   rep.extra["roots"] = [list(map(list, r)) for r in ROOTS]
+  rep.extra["capacity_roots"] = [dict(capacity=c, root=list(map(list, r)), depth=max(1, depth + dd)) for c, r, dd in CAP_ROOTS]
   return rep
 
 
 def replay (cfg, data):
   from mc.env import boot
   boot()
-  w = World(); lines = []
+  w = World(data.get("capacity")); lines = []
   for op in data.get("root", []): w.apply(tuple(op))
   for op in data["history"]:
     op = tuple(op)
